@@ -147,6 +147,7 @@ func init() {
 	checks["C09"] = &checkDef{
 		run: func(c *Ctx) {
 			runG1(c.Repo, c.Rep)
+			g23UnresolvedReported(c.Repo, c.Rep)
 			c.Rep.floor("G1", 350)
 			g12HasUndefined(c)
 			g14NilPkg(c.Repo, c.Rep)
